@@ -103,7 +103,19 @@ def ob_compat_table(ctx, res):
     flags = _command_flags(ctx)
     # the commands that go through compat rewriting
     ca = ctx.ast.fn(CLI, "compat_args")
-    cmds = set(re.findall(r'Some\("(\w+)"\)', up(ca.body)))
+    # commands whose match arm (any pattern spelling) applies compat_arg_mut to the arguments
+    cmds = set()
+    arms_seen = 0
+    for m in walk_no_nested_fn(ca.body):
+        if m.k != "match":
+            continue
+        for a in m["arms"]:
+            arms_seen += 1
+            if "compat_arg_mut" in up(a["body"]):
+                cmds |= set(re.findall(r'"(\w+)"', up(a["pat"])))
+    if not arms_seen:
+        res.undecided(ca, "compat_args no longer dispatches on the command name with a match: rewritten commands not determined")
+        return
     table = dict(pairs)
     for s in NAMED:
         if s not in table:
